@@ -20,6 +20,7 @@ func init() {
 			le := newLockEngine(r.P)
 			ruleL1(r, le)
 			ruleW1(r)
+			ruleW4(r, le, "W4")
 			ruleW2(r)
 			ruleS1(r)
 			ruleE1(r)
